@@ -23,7 +23,9 @@ Inductive err :=
 | EValue              (* ValueError *)
 | EIndex              (* IndexError *)
 | EAssert             (* AssertionError *)
-| EMissingLatticeOpt. (* MissingLatticeOptError *)
+| EMissingLatticeOpt  (* MissingLatticeOptError *)
+| EParseCell          (* ParseMCNPCellError *)
+| EOutOfModel.        (* input outside the modelled subset (never produced by the generators) *)
 Inductive res (A : Type) := Ok (a : A) | Err (e : err).
 Arguments Ok {A}. Arguments Err {A}.
 
@@ -421,3 +423,169 @@ Arguments mkLatCell {T}. Arguments lc_universe {T}. Arguments lc_fill {T}.
 Arguments lc_filltr {T}. Arguments lc_trcl {T}.
 Arguments mkElem {T}. Arguments ne_index {T}. Arguments ne_trnsf {T}.
 Arguments ne_fill {T}. Arguments ne_filltr {T}.
+
+(* ------------------------------------------------------------------------ *)
+(* ParseMCNPCell.parse_fill_kw: the tokens after FILL / *FILL                *)
+(* ------------------------------------------------------------------------ *)
+(* The option string of the cell card is lower-cased, "(", ")" and "=" become
+   blanks, and the tokens are consumed one by one (kw_list.pop()); here the
+   token list is in reading order.  Modelled subset of MIP expand_data_card
+   (dtype='int'): integer spellings and the repeat shorthand "r"/"nr"; the
+   shorthands i, m, j, log and non-integer number spellings answer EOutOfModel.
+   The numeric content of the transformation parameters (to_float, TRn lookup,
+   to_cos, normalize_transform) belongs to C04/C05: the model returns the
+   parameter TOKENS and their shape. *)
+Open Scope string_scope.
+
+Fixpoint last_char (s : string) : option ascii :=
+  match s with
+  | EmptyString => None
+  | String c EmptyString => Some c
+  | String _ r => last_char r
+  end.
+
+Fixpoint drop_last1 (s : string) : string :=
+  match s with
+  | EmptyString => EmptyString
+  | String _ EmptyString => EmptyString
+  | String c r => String c (drop_last1 r)
+  end.
+
+(* kw_list[-1][0] in '0123456789.+-' *)
+Definition is_num_start (s : string) : bool :=
+  match s with
+  | EmptyString => false     (* tokens of split() are never empty *)
+  | String c _ => is_digit c || Ascii.eqb c "." || Ascii.eqb c "+" || Ascii.eqb c "-"
+  end.
+
+Fixpoint span_tokens (f : string -> bool) (l : list string) : list string * list string :=
+  match l with
+  | [] => ([], [])
+  | t :: r => if f t then let '(a, b) := span_tokens f r in (t :: a, b) else ([], l)
+  end.
+
+Definition ends_with_log (s : string) : bool :=
+  match last_char s, last_char (drop_last1 s), last_char (drop_last1 (drop_last1 s)) with
+  | Some "g"%char, Some "o"%char, Some "l"%char => true
+  | _, _, _ => false
+  end.
+
+Fixpoint last_Z (l : list Z) : option Z :=
+  match l with [] => None | [x] => Some x | _ :: r => last_Z r end.
+
+(* expand_data_card(tokens, expected=expected, dtype='int'): (values, consumed) *)
+Fixpoint expand_ints (tokens : list string) (expected : Z) (result : list Z) (consumed : nat)
+  : res (list Z * nat) :=
+  let finish :=
+    if (Z.of_nat (List.length result) =? expected)%Z then Ok (result, consumed) else Err EParseCell in
+  match tokens with
+  | [] => finish
+  | tok :: rest =>
+      if (expected <=? Z.of_nat (List.length result))%Z then finish
+      else
+        match last_char tok with
+        | None => Err EOutOfModel
+        | Some c =>
+            if Ascii.eqb c "r" then
+              match (match drop_last1 tok with
+                     | EmptyString => Some 1%Z
+                     | pre => int_of_signed pre
+                     end) with
+              | None => Err EParseCell                  (* int('x') : ValueError, caught *)
+              | Some n =>
+                  match last_Z result with
+                  | None => Err EIndex                   (* result[-1] on an empty list *)
+                  | Some x => expand_ints rest expected (result ++ repeat x (Z.to_nat n)) (S consumed)
+                  end
+              end
+            else if Ascii.eqb c "i" || Ascii.eqb c "m" || Ascii.eqb c "j" || ends_with_log tok
+            then Err EOutOfModel
+            else
+              match int_of_signed tok with
+              | Some v => expand_ints rest expected (result ++ [v]) (S consumed)
+              | None => if is_num_start tok then Err EOutOfModel   (* 2.0, 1e1, ... *)
+                        else Err EParseCell                          (* a keyword: to_float fails *)
+              end
+        end
+  end.
+
+(* MIP to_float on a lower-case token: Python float() or the Fortran spellings
+   (1.5d3, 1.5+3); inf/nan/underscores are outside the model *)
+Fixpoint skip_digits (s : string) : nat * string :=
+  match s with
+  | String c r => if is_digit c then let '(n, t) := skip_digits r in (S n, t) else (O, s)
+  | EmptyString => (O, s)
+  end.
+
+Definition strip_sign (s : string) : string :=
+  match s with
+  | String c r => if Ascii.eqb c "+" || Ascii.eqb c "-" then r else s
+  | EmptyString => s
+  end.
+
+Definition digits1 (s : string) : bool :=
+  match s with EmptyString => false | _ => all_digits s end.
+
+Definition exponent_part (s : string) : bool :=
+  match s with
+  | EmptyString => true
+  | String c r =>
+      if Ascii.eqb c "e" || Ascii.eqb c "d" then digits1 (strip_sign r)
+      else if Ascii.eqb c "+" || Ascii.eqb c "-" then digits1 r
+      else false
+  end.
+
+Definition is_float_spelling (s : string) : bool :=
+  let '(n1, r1) := skip_digits (strip_sign s) in
+  match r1 with
+  | String "." r2 =>
+      let '(n2, r3) := skip_digits r2 in
+      if Nat.eqb (n1 + n2) 0 then false else exponent_part r3
+  | _ => if Nat.eqb n1 0 then false else exponent_part r1
+  end.
+
+Definition has_colon (s : string) : bool := contains_char ":" s.
+
+Inductive fill_shape :=
+| PNone                          (* no transformation *)
+| PNumber (t : string)           (* one number: TRn *)
+| PTranslation (a b c : string)  (* three numbers: a translation, also under *FILL *)
+| PMatrix (star : bool) (l : list string).   (* anything else: normalize_transform (after to_cos if starred) *)
+
+Definition fill_params_shape (star : bool) (params : list string) : fill_shape :=
+  match params with
+  | [] => PNone
+  | [t] => PNumber t
+  | [a; b; c] => PTranslation a b c
+  | l => PMatrix star l
+  end.
+
+Record fill_kw := mkFillKw {
+  fk_bounds : option bounds;
+  fk_univs : funivs;
+  fk_params : list string;       (* tokens taken as transformation parameters *)
+  fk_rest : list string          (* what is left of the keyword list *)
+}.
+
+Definition parse_fill_kw (first_arg : string) (stack : list string) : res fill_kw :=
+  if has_colon first_arg then
+    let '(more, rest) := span_tokens has_colon stack in
+    bind (parse_ranges (first_arg :: more)) (fun bs =>
+    bind (expand_ints rest (size bs) [] 0) (fun vc =>
+      let '(univs, consumed) := vc in
+      (* del kw_list[-consumed:] : with consumed = 0 this deletes EVERYTHING *)
+      let rest := match consumed with O => [] | _ => skipn consumed rest end in
+      let '(params, rest) := span_tokens is_num_start rest in
+      (* fill_params.append(to_float(...)): an uncaught ValueError otherwise *)
+      if forallb is_float_spelling params
+      then Ok (mkFillKw (Some bs) (FArr univs) params rest) else Err EValue))
+  else
+    match int_of_signed first_arg with
+    | None => Err EOutOfModel          (* FILL=2.0 etc.: int(float(...)) *)
+    | Some u =>
+        let '(params, rest) := span_tokens is_num_start stack in
+        if forallb is_float_spelling params
+        then Ok (mkFillKw None (FInt u) params rest) else Err EValue
+    end.
+
+Close Scope string_scope.
